@@ -1,6 +1,7 @@
 package baseorbitdb
 
 import (
+	"berty.tech/go-orbit-db/verifhook"
 	"context"
 	"fmt"
 	"path"
@@ -822,12 +823,14 @@ func (o *orbitDB) monitorDirectChannel(ctx context.Context, bus event.Bus) error
 
 	go func() {
 		for {
+			verifhook.At("direct.idle", o)
 			var e interface{}
 			select {
 			case <-ctx.Done():
 				return
 			case e = <-sub.Out():
 			}
+			verifhook.At("direct.recv", o)
 
 			evt := e.(iface.EventPubSubPayload)
 
